@@ -168,7 +168,7 @@ theorem relativePath_some (reps : List Str) (c t : Chain) (name : Str) (rp : Boo
     (ha : t.path[1]? = some a) (hb : c.path[1]? = some a)
     (hrel : related c t = true) (res : Nat × List Str)
     (hss : shareSameRepeatParent reps t.xpath c.xpath rp = some res) (hres : res.1 ≠ 0) :
-    ∃ d, relativePath reps c t name rp = .ok (some (res.1, d)) := by
+    ∃ d, relativePath reps c t name rp = some (res.1, d) := by
   have hc0 : c.path ≠ [] := by intro e; simp [e] at hb
   have ht0 : t.path ≠ [] := by intro e; simp [e] at ha
   have hclen : 2 ≤ c.path.length := by
@@ -180,7 +180,15 @@ theorem relativePath_some (reps : List Str) (c t : Chain) (name : Str) (rp : Boo
       | cons y ys => simp
   unfold relativePath
   simp only [Chain.xpath, split_pathStr c.path hc0 gc, split_pathStr t.path ht0 gt, List.length_cons]
-  have h1 : c.path.length + 1 > 2 := by omega
+  have htlen : 2 ≤ t.path.length := by
+    cases htp : t.path with
+    | nil => exact absurd htp ht0
+    | cons x xs =>
+      cases xs with
+      | nil => simp [htp] at ha
+      | cons y ys => simp
+  have h1 : (decide (c.path.length + 1 > 2) && decide (t.path.length + 1 > 2)) = true := by
+    simp; omega
   simp only [h1, ↓reduceIte, List.getElem?_cons_succ, ha, hb, hrel, Bool.not_true, Bool.false_eq_true]
   obtain ⟨steps, parts⟩ := res
   simp only [Chain.xpath] at hss
